@@ -9,6 +9,8 @@ seed at most once per call, never in a loop; (R5) with random_state=None the sam
 anything (consecutive unseeded calls differ); (R7) no seeded API writes into its arguments, the model or module
 state (ownership analysis), so a repeated call starts from the same data.  The effect summary "reads no random state other than a
 stream it (re)seeds from its own argument" is history independent by construction.
+Also decided: (R6) the library's own noise factories draw from numpy's global stream only; a generator handed out by a memoised
+helper is not 'seeded by this call'; the global stream is never reseeded inside a loop.
 """
 from .common import *
 from .. import rng as RG
